@@ -22,16 +22,19 @@ func init() {
 		{ID: "E1.jwks.cache-only-on-success", Fn: "client/rp.(*remoteKeySet).updateKeys", P: []string{"r", "ctx"}, Kind: "store", Pat: "store($r.cachedKeys, $keys)", Max: 1,
 			Why: "a failed or malformed download never replaces the cached keys",
 			Req: []string{"def($keys, $r.fetchRemoteKeys(_), 0)", "ok($r.fetchRemoteKeys(_))"}},
-		{ID: "E1.jwks.single-flight.create", Fn: "client/rp.(*remoteKeySet).keysFromRemote", P: []string{"r", "ctx"}, Kind: "store", Pat: "store($r.inflight, rp.newInflight())", Max: 1,
+		{ID: "E1.jwks.single-flight.create", AltOf: "E1.jwks.single-flight.created", Fn: "client/rp.(*remoteKeySet).keysFromRemote", P: []string{"r", "ctx"}, Kind: "store", Pat: "store($r.inflight, rp.newInflight())", Max: 1,
+			Why: "a new download is started only when none is in flight (concurrent misses share one)",
+			Req: []string{"nil($r.inflight)"}},
+		{ID: "E1.jwks.single-flight.create.literal", AltOf: "E1.jwks.single-flight.created", Fn: "client/rp.(*remoteKeySet).keysFromRemote", P: []string{"r", "ctx"}, Kind: "store", Pat: "store($r.inflight, &inflight{doneCh: make(_)})", Max: 1,
 			Why: "a new download is started only when none is in flight (concurrent misses share one)",
 			Req: []string{"nil($r.inflight)"}},
 		{ID: "E1.jwks.single-flight.start", AltOf: "E1.jwks.single-flight.started", Fn: "client/rp.(*remoteKeySet).keysFromRemote", P: []string{"r", "ctx"}, Kind: "go", Pat: "gostmt($r.updateKeys($c))", Max: 1,
 			Why: "the shared download runs once per inflight record and must not be cancelled by the first caller's context (other callers wait for it)",
-			Req: []string{"eq($r.inflight, rp.newInflight())", "detachedCtx($c)"}},
+			Req: []string{"eq($r.inflight, rp.newInflight()) || eq($r.inflight, &inflight{doneCh: make(_)})", "detachedCtx($c)"}},
 		// the same start when the goroutine is handed the record it owns
 		{ID: "E1.jwks.single-flight.start.handed", AltOf: "E1.jwks.single-flight.started", Fn: "client/rp.(*remoteKeySet).keysFromRemote", P: []string{"r", "ctx"}, Kind: "go", Pat: "gostmt($r.updateKeys($c, $r.inflight))", Max: 1,
 			Why: "the shared download runs once per inflight record and must not be cancelled by the first caller's context (other callers wait for it)",
-			Req: []string{"eq($r.inflight, rp.newInflight())", "detachedCtx($c)"}},
+			Req: []string{"eq($r.inflight, rp.newInflight()) || eq($r.inflight, &inflight{doneCh: make(_)})", "detachedCtx($c)"}},
 		{ID: "E1.jwks.single-flight.only-start", Fn: "client/rp.(*remoteKeySet).keysFromRemote", Kind: "go", Max: 1},
 		{ID: "E1.jwks.update.done-once", AltOf: "E1.jwks.update.signals", Arity: 2, Fn: "client/rp.(*remoteKeySet).updateKeys", P: []string{"r", "ctx"}, Kind: "call", Pat: "$r.inflight.done($keys, $err)", Max: 1,
 			Req: []string{"def($keys, $r.fetchRemoteKeys(_), 0)", "def($err, $r.fetchRemoteKeys(_), 1)"}},
